@@ -86,6 +86,7 @@ type Op struct {
 	Index  *IndexSpec `json:"index,omitempty"`  // mkindex: CreateIndex on the primary beside the other threads
 	Sort   *SortSpec  `json:"sort,omitempty"`   // mksort: CreateSortIndex beside the other threads
 	Name   string     `json:"name,omitempty"`   // mktrigger / droptrigger
+	Ghost  bool       `json:"ghost,omitempty"`  // at: after the writes, also store into the unmodelled column "ghost" if it exists right now
 }
 
 // Target names a row symbolically so that cases stay meaningful when steps are removed.
@@ -118,6 +119,11 @@ type Fault struct {
 	Kind string `json:"kind"`
 	At   int    `json:"at,omitempty"`
 	N    int    `json:"n,omitempty"`
+	// stall ("slow node"): the first thread of role Role that parks at hook point At (with
+	// argument Arg-1 unless Arg is 0) is not scheduled for the next N scheduler steps, unless
+	// nothing else can run
+	Role string `json:"role,omitempty"`
+	Arg  int    `json:"arg,omitempty"`
 }
 
 func (t Target) String() string { return fmt.Sprintf("%s:%d", t.Mode, t.K) }
